@@ -71,10 +71,14 @@ type cachedChildHandle struct {
 	desc string
 }
 
-func (h cachedChildHandle) ReportCount(v int64)         { h.c.add(fmt.Sprint("h-count|", h.desc, "|", v)) }
-func (h cachedChildHandle) ReportGauge(v float64)       { h.c.add(fmt.Sprint("h-gauge|", h.desc, "|", fbits(v))) }
-func (h cachedChildHandle) ReportTimer(d time.Duration) { h.c.add(fmt.Sprint("h-timer|", h.desc, "|", int64(d))) }
-func (h cachedChildHandle) ReportSamples(v int64)       { h.c.add(fmt.Sprint("h-samples|", h.desc, "|", v)) }
+func (h cachedChildHandle) ReportCount(v int64) { h.c.add(fmt.Sprint("h-count|", h.desc, "|", v)) }
+func (h cachedChildHandle) ReportGauge(v float64) {
+	h.c.add(fmt.Sprint("h-gauge|", h.desc, "|", fbits(v)))
+}
+func (h cachedChildHandle) ReportTimer(d time.Duration) {
+	h.c.add(fmt.Sprint("h-timer|", h.desc, "|", int64(d)))
+}
+func (h cachedChildHandle) ReportSamples(v int64) { h.c.add(fmt.Sprint("h-samples|", h.desc, "|", v)) }
 func (h cachedChildHandle) ValueBucket(lo, hi float64) tally.CachedHistogramBucket {
 	d := fmt.Sprint("vbucket|", h.desc, "|", fbits(lo), "|", fbits(hi))
 	h.c.add(d)
@@ -321,6 +325,53 @@ func init() {
 					}
 				}
 			}
+		}
+		// calls made from several goroutines at once: still exactly one call per child for every call on the parent
+		for flavour := 0; flavour < 2; flavour++ {
+			const G, N = 8, 150
+			g := &multiSeq{}
+			logs := []*childLog{{g: g, idx: 0, caps: [2]bool{true, true}}, {g: g, idx: 1, caps: [2]bool{true, false}}, {g: g, idx: 2, caps: [2]bool{true, true}}}
+			var flush func()
+			var report func(v int64)
+			if flavour == 0 {
+				m := multi.NewMultiReporter(plainChild{logs[0]}, plainChild{logs[1]}, plainChild{logs[2]})
+				flush = m.Flush
+				report = func(v int64) { m.ReportCounter("c", nil, v) }
+			} else {
+				m := multi.NewMultiCachedReporter(cachedChild{logs[0]}, cachedChild{logs[1]}, cachedChild{logs[2]})
+				h := m.AllocateCounter("c", nil)
+				for _, l := range logs {
+					l.calls, l.seqs = nil, nil
+				}
+				flush = m.Flush
+				report = h.ReportCount
+			}
+			var wg sync.WaitGroup
+			for i := 0; i < G; i++ {
+				wg.Add(1)
+				go func() {
+					defer wg.Done()
+					for k := 0; k < N; k++ {
+						report(1)
+						flush()
+					}
+				}()
+			}
+			wg.Wait()
+			got := [][2]int{}
+			for _, l := range logs {
+				nf, nr := 0, 0
+				for _, c := range l.calls {
+					if c == "flush" {
+						nf++
+					} else {
+						nr++
+					}
+				}
+				got = append(got, [2]int{nr, nf})
+			}
+			tr.Emit(M{"e": "conc", "flavour": flavour, "want": G * N, "got": got})
+			evals++
 		}
 		tr.Close()
 		writeMeta(cm.out, M{"cases": cases, "events": tr.N, "evals": evals, "distinct": len(distinct), "samples": samples})
